@@ -81,6 +81,16 @@ class Node(object):
         return None
 
     @property
+    def fvalue(self):
+        """compile-time floating value (literal or constant expression clang could fold), else None"""
+        if 'fv' in self.j:
+            return self.j['fv']
+        if self.k == 'FloatingLiteral':
+            return self.j.get('v')
+        c = self.cv
+        return float(c) if c is not None else None
+
+    @property
     def callee(self):
         ci = self.j.get('callee')
         return self.prog.frefs[ci] if ci is not None else None
